@@ -91,3 +91,10 @@ claim('C19', 'c19_socket.c',
       'delivered and send (when it reports success) has handed every byte to the kernel exactly once and in order; for open, accept, close, dup, done, delete and hard write errors - with '
       'every outcome of socket/bind/listen/connect/accept/dup/close/fcntl chosen by the solver - no descriptor is left open once the socket objects are deleted and no object refers to a closed descriptor.',
       'DESIGN.md section 4, C19')
+claim('C10', 'c10_expand.c',
+      'CBMC differential check: spifconf_shell_expand vs a reference expander on every text up to the length bound (text as shape), environment, variable store and all uninitialised scratch memory symbolic',
+      'For every string up to the length bound over a 13-letter alphabet of ordinary characters, quotes, backslash, tilde and the $-forms, and for every environment '
+      '(HOME and each referenced name independently unset, empty or 1-2 arbitrary bytes), the solver shows the expanded text equals the reference expander result, is terminated '
+      'within the buffer limit, and therefore depends on no unwritten stack or heap byte (scratch buffers start nondeterministic); the same texts in exact-size objects show no read '
+      'past the terminator; %put/%get/%version skeletons and the variable store (one step from every sorted store) are checked against their oracles.',
+      'DESIGN.md section 4, C10')
